@@ -2,6 +2,7 @@ package node
 
 import (
 	"bufio"
+	"errors"
 	"fmt"
 	"io"
 	"log"
@@ -12,6 +13,7 @@ import (
 	"github.com/chzyer/readline"
 	"github.com/paulsonkoly/calc/combinator"
 	"github.com/paulsonkoly/calc/flags"
+	"github.com/paulsonkoly/calc/types/bytecode"
 	"github.com/paulsonkoly/calc/vm"
 )
 
@@ -120,6 +122,30 @@ func Loop(r lineReader, p Parser, vm *vm.Type, doOut bool) {
 	}
 }
 
+// Compile compiles e (with ByteCode if the result is kept, else with
+// ByteCodeNoStck) and appends the result in cr. A statement that needs more
+// constants, longer jumps or more variables than an instruction operand can
+// address is refused: nothing is appended and the error is returned.
+func Compile(e Type, cr compResult, keepResult bool) (err error) {
+	cs, ds := len(*cr.CS), len(*cr.DS)
+	defer func() {
+		if r := recover(); r != nil {
+			rerr, ok := r.(error)
+			if !ok || !errors.Is(rerr, bytecode.ErrOperandRange) {
+				panic(r)
+			}
+			*cr.CS, *cr.DS = (*cr.CS)[:cs], (*cr.DS)[:ds]
+			err = rerr
+		}
+	}()
+	if keepResult {
+		ByteCode(e, cr)
+	} else {
+		ByteCodeNoStck(e, cr)
+	}
+	return nil
+}
+
 func processInput(input string, p Parser, vm *vm.Type, doOut bool) {
 	t, err := p.Parse(input)
 	if err != nil {
@@ -135,10 +161,9 @@ func processInput(input string, p Parser, vm *vm.Type, doOut bool) {
 		}
 
 		ip := len(*vm.CR.CS)
-		if doOut {
-			ByteCode(e, vm.CR)
-		} else {
-			ByteCodeNoStck(e, vm.CR)
+		if err := Compile(e, vm.CR, doOut); err != nil {
+			fmt.Printf("Compiler: %v\n", err)
+			continue
 		}
 
 		if *flags.ByteCodeFlag {
